@@ -195,6 +195,7 @@ pub fn run(args: &Args, rec: &mut Recorder) {
         };
         // 10 conforming instances + 5 deviations, spread over the sites
         let mut blocks: Vec<(&'static str, Vec<Tok>)> = Vec::new();
+        let mut blocks_nc: Vec<(&'static str, Vec<Tok>)> = Vec::new();
         let mut meta: Vec<Block> = Vec::new();
         let mut sites: Vec<&'static str> = SITES.to_vec();
         rng.shuffle(&mut sites);
@@ -211,6 +212,7 @@ pub fn run(args: &Args, rec: &mut Recorder) {
                         kind,
                         n_tokens: toks.len(),
                     });
+                    blocks_nc.push((site, toks.clone()));
                     blocks.push((site, toks));
                     continue;
                 }
@@ -221,9 +223,30 @@ pub fn run(args: &Args, rec: &mut Recorder) {
                 kind: "conforming",
                 n_tokens: inst.toks.len(),
             });
+            if rng.chance(1, 4) && !inst.toks.is_empty() {
+                // comments are not content: a conforming instance stays conforming with comments in
+                // front of, between and behind its tokens
+                let mut with_c = inst.toks.clone();
+                for _ in 0..rng.urange(1, 3) {
+                    let at = rng.below(with_c.len() + 1);
+                    let c = if rng.coin() { "/* note */" } else { "// note" };
+                    if at == with_c.len() {
+                        rec.bump("comments.before_end_of_if_data");
+                    } else {
+                        rec.bump("comments.inside_if_data");
+                    }
+                    with_c.insert(at, Tok::comment(c));
+                }
+                blocks_nc.push((site, inst.toks));
+                blocks.push((site, with_c));
+                continue;
+            }
+            blocks_nc.push((site, inst.toks.clone()));
             blocks.push((site, inst.toks));
         }
         let doc = build_doc(a2ml_in_file.as_deref(), &blocks);
+        // the token oracle works on the document without the comments inside IF_DATA (they are not kept)
+        let flat_for_tokens = build_doc(a2ml_in_file.as_deref(), &blocks_nc).flatten();
         let flat = doc.flatten();
         let lc = LayoutCfg::c05(rng);
         let text = render(&flat, &lc, rng).text;
@@ -298,10 +321,10 @@ pub fn run(args: &Args, rec: &mut Recorder) {
                     return None;
                 }
             };
-            match compare_tokens(&flat, &out) {
+            match compare_tokens(&flat_for_tokens, &out) {
                 Ok(toks) => {
                     // integer notation (hex / decimal) must survive as well
-                    for (ft, lt) in flat.toks.iter().zip(toks.iter()) {
+                    for (ft, lt) in flat_for_tokens.toks.iter().zip(toks.iter()) {
                         if ft.in_ifdata && ft.tok.kind == TK::Int {
                             let was_hex = ft.tok.text.starts_with("0x") || ft.tok.text.starts_with("0X");
                             if was_hex != lt.hex {
@@ -314,7 +337,7 @@ pub fn run(args: &Args, rec: &mut Recorder) {
                             }
                         }
                     }
-                    if let Some((a, b)) = crate::gram::first_inexact_float(&flat, &toks) {
+                    if let Some((a, b)) = crate::gram::first_inexact_float(&flat_for_tokens, &toks) {
                         rec.violation(
                             "float value in IF_DATA changed by load+write",
                             &format!("`{a}` written as `{b}`"),
